@@ -583,14 +583,17 @@ def run_pickle_harness(ctx, lines, tag):
         f.write("\n".join(lines) + "\n")
     rc, o = ctx.go_overlay_test("pickle", {"zz_verif_c07_test.go": os.path.join(HARNESS, "overlay/pickle/zz_verif_c07_test.go")},
                                 "^TestVerifPickle$", {"VERIF_IN": inp, "VERIF_OUT": outp, "VERIF_SEED": str(ctx.seed)})
-    res, oracles = {}, []
-    if rc == 0:
-        for line in open(outp):
+    res, oracles, begun = {}, [], None
+    if os.path.exists(outp):
+        for line in open(outp, errors="replace"):
             f = line.rstrip("\n").split("\t")
             if f[0] == "ORACLE":
                 oracles.append(f)
-            else:
+            elif f[0] == "begin":
+                begun = int(f[1])
+            elif len(f) >= 3 and f[1].isdigit():
                 res[int(f[1])] = f
+    ctx.died_on = begun if (rc != 0 and begun is not None and begun not in res) else None
     return rc, o, res, oracles
 
 
@@ -635,6 +638,13 @@ def run_inner(ctx):
     cases = gen_c07(rng, ctx.quick())
     lines = ["rt\t%d\t%s" % (i, go_desc(c[1], c[2])) for i, c in enumerate(cases)]
     rc, o, res, oracles = run_pickle_harness(ctx, lines, "c07")
+    if rc != 0 and ctx.died_on is not None:
+        c = cases[ctx.died_on]
+        ctx.log(o[-1500:])
+        ctx.violation("the process died (fatal error) while encoding/decoding %s %s" % (c[0], go_desc(c[1], c[2])[:200]),
+                      {"oracle": "process-died", "class": c[0], "description": go_desc(c[1], c[2])[:100000], "output_tail": o[-1500:],
+                       "how": "TestVerifPickle in harness/overlay/pickle/zz_verif_c07_test.go: rt line with this description"})
+        return
     if rc != 0:
         ctx.log(o[-3000:])
         ctx.violation("pickle harness failed to build or run against /repo (exit %d)" % rc,
